@@ -14,7 +14,7 @@ from sim.stream import StreamBoard
 
 PROPERTY = 'C20'
 LEVEL = 'exploration'
-BUDGET_S = {'quick': 90, 'thorough': 1500}
+BUDGET_S = {'quick': 240, 'thorough': 3000}
 RULE = ("Runs derived from (VERIF_SEED, index). 'interleave' runs: 2-4 instances (regimes same / mixed+switch / mixed), seeded "
         "schedule of constructions and steps (uniform, bursts, alternation, late construction), each instance's per-tick "
         "full-state trace compared with its solo trace from a pristine forked process. 'replay' runs: snapshot tick s, deepcopy "
@@ -62,6 +62,11 @@ def _core(rng, cfg, nt):
     tb = rng.random()
     words = []
     for _ in range(nt):
+        if words and rng.random() < 0.15:
+            # the same encoding again, later, in whatever context the run has reached by then (other IT position, flags, mode):
+            # state captured at an earlier execution of a word must not leak into a later one
+            words.append(rng.choice(words[-12:]))
+            continue
         if rng.random() < 0.75:
             th = rng.random() < tb
             w = G.vocab_words(rng, th)
